@@ -714,6 +714,12 @@ def const_eval(node, env, lookup=None):
             return a // b
         if isinstance(node.op, ast.Mod) and isinstance(a, str):
             return a % b
+        if isinstance(node.op, ast.BitOr) and isinstance(a, (dict, set)) \
+                and type(a) is type(b):
+            return a | b
+        if isinstance(node.op, ast.BitAnd) and isinstance(a, set) and \
+                isinstance(b, set):
+            return a & b
     if isinstance(node, ast.ListComp) and len(node.generators) == 1:
         g = node.generators[0]
         if isinstance(g.target, ast.Name) and not g.is_async:
